@@ -6,7 +6,7 @@ git -C /repo worktree remove --force "$wt" >/dev/null 2>&1
 git -C /repo worktree add -q --detach "$wt" HEAD || exit 2
 trap 'git -C /repo worktree remove --force "$wt" >/dev/null 2>&1' EXIT
 git -C "$wt" apply $d/patch.diff || { echo "$name APPLY-FAILED"; exit 3; }
-flock /tmp/jsonrpclib-tests.lock /verif/tools/baseline.sh "$wt" >/tmp/seedwt/$name.baseline 2>&1; res="$name baseline=$?"
+flock /tmp/jsonrpclib-tests.lock timeout 420 /verif/tools/baseline.sh "$wt" >/tmp/seedwt/$name.baseline 2>&1; res="$name baseline=$?"
 for p in $props; do
   VERIF_REPO="$wt" /verif/check $p --tier quick >/tmp/seedwt/$name.$p.out 2>&1; rc=$?
   res="$res check_$p=$rc(violations=$(grep -c '^VIOLATION' /tmp/seedwt/$name.$p.out))"
